@@ -212,6 +212,17 @@ def build() -> Check:
             bad.append((f"returns {t.value.key() if t.outcome == 'return' else t.exc_class()}", t))
     ck.floor("wait_for_callback_traces", len(traces), 2)
     ck.ob("R4.wait-for-callback-composition", fn_construct(wfc), not bad, (bad[0][0] + ": " + trace_sig(bad[0][1])) if bad else "")
+    # R4 the serializer configured for the callback RESULT has one job (h3_C14 #1): WaitForCallbackConfig.serdes is documented as the serdes of the callback
+    # result. The submitter step returns something else (normally None), and the child context that wraps the composition returns the deserialised
+    # payload: a serdes written for the payload's type cannot record the step's None, and the default serializer cannot record the typed payload.
+    import ast as _ast
+    step_cfg = [c for c in _ast.walk(wfc.node) if isinstance(c, _ast.Call) and isinstance(c.func, _ast.Name) and c.func.id == "StepConfig"]
+    ck.floor("submitter_step_configs", len(step_cfg), 1)
+    misuse = [c for c in step_cfg if any(k.arg == "serdes" and not (isinstance(k.value, _ast.Constant) and k.value.value is None) for k in c.keywords)]
+    ck.ob("R4.callback-serdes-is-for-the-callback-result-only", fn_construct(wfc), not misuse,
+          f"the submitter step is configured with `{_ast.unparse(misuse[0])[:110]}`: the serializer meant for the callback's payload is applied to the submitter's return "
+          "value (None): with a serdes written for the payload type the step's SUCCEED record cannot be built (context FAILED before the callback is awaited), and "
+          "where it tolerates None the enclosing child context then re-serialises the typed payload with the default serializer ('Unsupported type')" if misuse else "")
     return ck
 
 
